@@ -27,7 +27,7 @@ def compile_probes(prop, P):
 
     def one(pr):
         try:
-            D.compile_tu(os.path.join(D.VERIF, pr["source"]), D.FLAVOURS["plain"] + ["-fsyntax-only"] if False else D.FLAVOURS["plain"] + list(pr.get("flags", [])), tag=pr["name"])
+            D.compile_tu(os.path.join(D.VERIF, pr["source"]), D.FLAVOURS["plain"] + list(pr.get("flags", [])), tag=pr["name"])
             return None
         except D.BuildError as e:
             msg = str(e)
